@@ -68,7 +68,8 @@ def module_desc(draw):
             c['class_tag'] = False
         if c['base']:
             c['kind'] = None
-    return {'classes': classes}
+    return {'classes': classes,
+            'load_tests': draw(st.sampled_from([False, False, True]))}
 
 
 @st.composite
@@ -222,6 +223,16 @@ def module_source(desc, logpath):
             lines.append('        log(self, %r)' % m)
             lines.append('')
         lines.append('')
+    if desc.get('load_tests'):
+        # unittest's load_tests protocol, with suites nested by hand
+        lines += ['def load_tests(loader, tests, pattern):',
+                  '    suite = unittest.TestSuite()',
+                  '    for cls in (%s,):' % ', '.join(
+                      c['name'] for c in desc['classes']),
+                  '        inner = unittest.TestSuite()',
+                  '        inner.addTests(loader.loadTestsFromTestCase(cls))',
+                  '        suite.addTest(unittest.TestSuite([inner]))',
+                  '    return suite', '']
     lines += ['if __name__ == "__main__":',
               '    ReferenceTestCase.main()', '']
     return '\n'.join(lines)
@@ -335,7 +346,7 @@ class _Config(object):
         return self.opts.get(name, default)
 
 
-def check_pytest_tagged(out, desc, mod, modname, exp):
+def check_pytest_tagged(out, desc, mod, modname, exp, both=False):
     from tdda.referencetest import referencepytest
     items = []
     for c in desc['classes']:
@@ -346,6 +357,9 @@ def check_pytest_tagged(out, desc, mod, modname, exp):
             items.append(_Item(getattr(inst, n), '%s.%s' % (c['name'], n)))
     cfg = (_Config(**{'--istagged': True}) if exp['mode'] == 'list'
            else _Config(**{'--tagged': True}))
+    if both:        # both options given: listing wins, as on the command line
+        cfg = _Config(**{'--istagged': True, '--tagged': True})
+        out.label('pytest-tagged:both-options')
     so = sys.stdout
     sys.stdout = io.StringIO()
     try:
@@ -480,7 +494,10 @@ def run(case, ctx):
     # synthetic collection of this module's tests
     if exp['mode'] in ('tagged', 'list') and not argv['names'] and (
             not argv.get('k')):
-        check_pytest_tagged(out, desc, mod, modname, exp)
+        fl = [tdda_flag(f) for f in argv['flags'] if tdda_flag(f)]
+        check_pytest_tagged(out, desc, mod, modname, exp,
+                            both=(any(t[0] for t in fl)
+                                  and any(t[1] for t in fl)))
     if case.get('subprocess'):
         out.label('subprocess-sample')
         env = dict(os.environ, PYTHONPATH=repo_root())
